@@ -16,8 +16,17 @@ from egsim.props import common
 KINDS = gen.LINK_MUTATORS + ["mk_vertex"]
 
 
-def check_symmetry(snap):
-    """-> violation or None, from the public-accessor snapshot."""
+def check_symmetry(snap, equal=None):
+    """
+    -> violation or None, from the public-accessor snapshot.
+
+    Labels stand for object identity.  `equal(a, b)` (optional) says whether the
+    objects labelled a and b compare equal with ==; it matters only for vertex
+    classes with value equality, where "listed" can be read by identity or by
+    equality.  The oracle demands only what holds under BOTH readings: a vertex
+    that lists a link must be (equal to) one of the link's ends; an end of a
+    link -- that very object -- must list the link.
+    """
     for lab, d in snap.items():
         if "!" in d:
             return engine.viol(
@@ -37,7 +46,10 @@ def check_symmetry(snap):
                     return engine.viol(
                         "C01/non-link-in-links", {"vertex": lab, "entry": l}
                     )
-                if lab not in ld["ends"]:
+                if lab not in ld["ends"] and not (
+                    equal is not None
+                    and any(e is not None and equal(e, lab) for e in ld["ends"])
+                ):
                     return engine.viol(
                         "C01/asym:vertex-lists-link-but-link-omits-vertex",
                         {"vertex": lab, "link": l, "ends": ld["ends"]},
@@ -77,6 +89,7 @@ class C01(engine.Property):
         "single-threaded use (the library documents no thread safety)",
         "observation through public accessors only (links, vertices, universes)",
         "neighbor caching off: the property does not mention it",
+        "with value-equal vertex classes only what holds under both the identity and the == reading of 'listed' is demanded",
         "clean batches are evidence, not proof: histories are sampled, not enumerated",
     ]
     expected_probes = [
@@ -90,11 +103,16 @@ class C01(engine.Property):
         "two-ended-link-given-third-end",
         "self-loop-created",
         "half-assigned-edge-created",
+        "value-equal-vertices-in-play",
     ]
 
     def make_config(self, rng):
         cfg = common.std_struct_config(rng, kinds=KINDS, always=("mk_edge",))
         cfg["p_bad"] = rng.choice([0.0, 0.05])
+        if rng.random() < 0.15:
+            # value-equal vertices: few tags, so equal-but-distinct objects abound
+            cfg["vertex_classes"] = ["EqVertex"] if rng.random() < 0.5 else ["EqVertex", "Vertex"]
+            cfg["value_equal"] = True
         return cfg
 
     def start(self, cfg):
@@ -128,7 +146,16 @@ class C01(engine.Property):
         snap = st.refresh()
         if snap != before:
             st.mutations += 1
-        return out, check_symmetry(snap)
+        equal = None
+        if st.cfg.get("value_equal"):
+            objs = st.ex.w.objs
+            s = st.stats
+            s["probe:value-equal-vertices-in-play"] += 1
+
+            def equal(a, b):
+                return objs[a] == objs[b]
+
+        return out, check_symmetry(snap, equal)
 
     def state_hash(self, st):
         return engine.h64(engine.jdump(st.snap))
